@@ -157,7 +157,7 @@ namespace Duckling
 
 /-- the commands that create no stack neither read nor change the warning list, and read no flag but — REM only — the comments flag -/
 theorem runCompileLocal_warns (W : List Warn → List Warn) (ctx : Ctx) (o' : Flags) (cl : ClsDesc) (name : Str) (line : Nat)
-    (a : Option Arg) (st : St) (hcom : o'.comments = ctx.opts.comments ∨ cl.cname ≠ "Rem") :
+    (a : Option Arg) (st : St) (hcom : hasHook cl "run_compile" = true → cl.cname = "Rem" → o'.comments = ctx.opts.comments) :
     runCompileLocal { ctx with opts := o' } cl name line a { st with warns := W st.warns } =
       R.mapOk (fun rc => { rc with st := { rc.st with warns := W rc.st.warns } }) (runCompileLocal ctx cl name line a st) := by
   obtain ⟨env, warns, prints⟩ := st
@@ -168,7 +168,7 @@ theorem runCompileLocal_warns (W : List Warn → List Warn) (ctx : Ctx) (o' : Fl
     | rfl
     | (cases defaultEmit name _ <;> rfl)
     | (simp only [evalIn]; generalize tokenize _ _ = o; cases o <;> first | rfl | (simp only [liftO, R.bind_ok]; split <;> rfl))
-    | (rcases hcom with h | h <;> simp_all <;> done)
+    | (simp_all <;> done)
 
 def Warn.isNE (w : Warn) : Bool := match w.kind with | .notExist _ => true | _ => false
 
